@@ -192,8 +192,9 @@ def run(ck):
 
     # ------------------------------------------------------------------ C->S: the same concrete proofs judged from their bytes
     shards = []
-    for i in range(NSHARD):
-        part = evs[i::NSHARD]
+    ntab = NSHARD if ck.thorough else min(8, NSHARD)      # fewer, longer TLC processes in the quick tier: JVM start-up dominates
+    for i in range(ntab):
+        part = evs[i::ntab]
         if part:
             sp = os.path.join(ck.work, "table_%02d.ndjson" % i)
             vlib.write_ndjson(sp, part + [{"k": "End", "events": len(part)}])
@@ -216,7 +217,7 @@ def run(ck):
             ck.report("C19:%s:%s:fatal" % ("get_method" if cs.get("src") == "chain" else "state_init", cs.get("tamper", "?").replace(":", "_")),
                       "the process died (unrecoverable) inside CheckProof", {"kind": "begin", "begin": cr, "output": pr.stdout[-2000:]})
         # spread the driver events over more TLC processes
-        nsplit = 1 if ck.thorough else 3
+        nsplit = 1
         for j in range(nsplit):
             part = de[j::nsplit]
             if part:
